@@ -1,4 +1,4 @@
-import OvniModel.Lemmas.EmuCoreRec
+import OvniModel.Lemmas.EmuCoreTotal
 
 /-!
 # C04 — thread life-cycle: accepted traces follow the documented state machine
@@ -22,8 +22,19 @@ and never mentions the model's handlers.
 * `state_view`: after every accepted prefix the `state` channel shows the
   specification state and the `tid` channel shows the TID exactly while the
   thread is running, cooling or warming; `state_records` / `tid_records`: these
-  are the values the step emits as Paraver records of types 4 and 2
-  (`stepEv_history_accept_partial`: the link between `Accepts` and the fold of the full `stepEv`).
+  are the values the step emits as Paraver records of types 4 and 2.
+* `NoZeroIds` (Lemmas/EmuCoreTotal): the side condition under which the record emission inside
+  `stepEv` cannot fail — no TID / PID is 0 (the loader refuses them) and no model channel or CPU-mux
+  default holds an integer 0 on a Paraver type without PRV_ZERO; `noZeroIds_init`: it holds for
+  `mkEmu …` as soon as the TIDs and PIDs are non-zero; `records_total`: in a well-formed state
+  satisfying it the records of every accepted OH* event can be emitted, and it holds again after
+  the step; `tid_zero_records_fail`: without it the handlers accept and `emit` refuses;
+  `stepEv_rejects_only_zero`: that ("forbidden value 0") is the only way the full step can fail
+  where its emulator component accepts.
+* `stepEv_history_accept_iff`: with `NoZeroIds`, folding the **full** `stepEv` (handlers, record
+  emission, flush) over an OH* history and then `finish` succeeds **iff** every step is legal, no
+  physical CPU is ever oversubscribed and all threads end dead (`stepAccepts_accepts`: the
+  direction that needs no side condition).
 -/
 set_option linter.unusedSimpArgs false
 set_option linter.unusedVariables false
@@ -295,53 +306,164 @@ theorem history_accept_iff {e0 : Emu} (h0 : WF e0) (hen : e0.enabled.contains 79
     Accepts th mh e0 hist ↔ SpecAccepts e0.phys (targetOf e0) (absOf e0.threads) hist :=
   history_aux th mh e0 hen hl hist e0 h0 (SameStatic.refl e0) hadm
 
--- OPEN: `history_accept_iff` with `Accepts` replaced by "the fold of the full `stepEv` succeeds and
--- `finish` succeeds".  `stepEv` = handlers + `records` + flush (`stepEv_ok_iff`), so the two differ
--- exactly when `records` fails, i.e. when a value 0 would be written on a Paraver type without
--- PRV_ZERO: a thread with TID 0, a process with PID 0, or a model channel holding 0 that becomes
--- visible through a thread / CPU view.  Proved: the direction below (`stepEv` fold accepted ⇒
--- `Accepts`, hence ⇒ the specification, for every system); missing: `Accepts` ⇒ `records` never
--- fails, under the hypothesis "TIDs, PIDs and visible model-channel values are non-zero" (C13).
-/-- A history accepted by folding the full `stepEv` (handlers, record emission, flush) and then
-    `finish` is accepted in the sense of `Accepts`: the emulator component of `stepEv` is `emuStep`. -/
-theorem stepEv_history_accept_partial :
-    ∀ (hist : List HEv) (e : Emu) (steps : List (Emu × List PrvRec)), steps.length = hist.length →
-      (∀ i (hi : i < hist.length) (hs : i < steps.length),
-        stepEv (if i = 0 then e else (steps[i - 1]'(by omega)).1) (hist[i]).1 79 72 (hist[i]).2.1 (hist[i]).2.2 th mh =
-          .ok steps[i]) →
-      finish (match steps.getLast? with | some s => s.1 | none => e) = .ok () →
-      Accepts th mh e hist
-  | [], e, steps, hlen, _, hfin => by
-    have : steps = [] := List.length_eq_zero_iff.mp hlen
-    subst this
-    exact hfin
-  | ev :: rest, e, [], hlen, _, _ => by simp at hlen
-  | ev :: rest, e, s :: steps, hlen, hstep, hfin => by
-    have h0 := hstep 0 (by simp) (by simp)
-    simp only [if_true, List.getElem_cons_zero] at h0
-    refine ⟨s.1, stepEv_emuStep th mh (ev := ev.toOEv) (e' := s.1) (rs := s.2) h0, ?_⟩
-    apply stepEv_history_accept_partial rest s.1 steps (by simpa using hlen)
-    · intro i hi hs
-      have := hstep (i + 1) (by simp; omega) (by simp; omega)
-      simp only [Nat.add_sub_cancel, List.getElem_cons_succ, Nat.add_eq_zero_iff, Nat.succ_ne_zero,
-        and_false, if_false] at this
-      by_cases h0i : i = 0
-      · subst h0i; simpa using this
-      · simp only [h0i, if_false]
-        have hi1 : i - 1 + 1 = i := by omega
-        have : (s :: steps)[i]'(by simp; omega) = steps[i - 1]'(by omega) := by
-          rcases i with _ | i
-          · exact absurd rfl h0i
-          · simp
-        simp_all
-    · cases hsl : steps.getLast? with
+/-! ## The full step: handlers, record emission, flush -/
+
+/-- A history accepted by the **full** emulation step: the fold of `stepEv` (handlers, Paraver
+    record emission, flush) succeeds on every event, and `finish` succeeds at the end. -/
+def StepAccepts (e : Emu) : List HEv → Prop
+  | [] => finish e = .ok ()
+  | ev :: rest => ∃ e' rs, stepEv e ev.1 79 72 ev.2.1 ev.2.2 th mh = .ok (e', rs) ∧ StepAccepts e' rest
+
+/-- the same as a function: final state and the records of every step -/
+def stepRun (e : Emu) : List HEv → Except Err (Emu × List (List PrvRec))
+  | [] => .ok (e, [])
+  | ev :: rest =>
+    match stepEv e ev.1 79 72 ev.2.1 ev.2.2 th mh with
+    | .error err => .error err
+    | .ok (e', rs) =>
+      match stepRun e' rest with
+      | .error err => .error err
+      | .ok (e'', rss) => .ok (e'', rs :: rss)
+
+theorem stepAccepts_iff_run : ∀ (hist : List HEv) (e : Emu),
+    StepAccepts th mh e hist ↔ ∃ e' rss, stepRun th mh e hist = .ok (e', rss) ∧ finish e' = .ok ()
+  | [], e => by
+    unfold StepAccepts stepRun
+    constructor
+    · intro h; exact ⟨e, [], rfl, h⟩
+    · rintro ⟨e', rss, h1, h2⟩
+      have : e = e' := by injection h1 with h1; exact congrArg Prod.fst h1
+      rw [this]; exact h2
+  | ev :: rest, e => by
+    unfold StepAccepts stepRun
+    constructor
+    · rintro ⟨e', rs, hs, hrest⟩
+      obtain ⟨e'', rss, hr, hf⟩ := (stepAccepts_iff_run rest e').mp hrest
+      exact ⟨e'', rs :: rss, by simp only [hs, hr], hf⟩
+    · rintro ⟨e'', rss, hr, hf⟩
+      cases hs : stepEv e ev.1 79 72 ev.2.1 ev.2.2 th mh with
+      | error err => simp only [hs] at hr; cases hr
+      | ok p =>
+        obtain ⟨e', rs⟩ := p
+        simp only [hs] at hr
+        cases hr2 : stepRun th mh e' rest with
+        | error err => simp only [hr2] at hr; cases hr
+        | ok q =>
+          obtain ⟨e3, rss'⟩ := q
+          simp only [hr2] at hr
+          have he : e3 = e'' := by injection hr with hr; exact congrArg Prod.fst hr
+          refine ⟨e', rs, rfl, (stepAccepts_iff_run rest e').mpr ⟨e3, rss', hr2, ?_⟩⟩
+          rw [he]; exact hf
+
+/-- A history accepted by the full step is accepted in the sense of `Accepts` (no side condition):
+    the emulator component of `stepEv` is `emuStep`. -/
+theorem stepAccepts_accepts : ∀ (hist : List HEv) (e : Emu), StepAccepts th mh e hist → Accepts th mh e hist
+  | [], _, h => h
+  | ev :: rest, e, h => by
+    obtain ⟨e', rs, hs, hrest⟩ := h
+    exact ⟨e', stepEv_emuStep th mh (ev := ev.toOEv) hs, stepAccepts_accepts rest e' hrest⟩
+
+/-- **The side condition holds initially**: for the emulator built from the hierarchy (no run-time
+    channel groups) it is enough that no TID and no PID is 0 — which `thread_stream_get_tid` /
+    `proc_stream_get_pid` guarantee; the connect-time values and CPU-mux defaults of the eight models
+    are accepted by `emit` (`allSpecs_initOk`, regenerated specs). -/
+theorem noZeroIds_init (threads : List (Int × Int × Nat)) (cpus : List (Nat × Int × Bool))
+    (enabled : List Nat) (lint : Bool) (hid : ∀ x ∈ threads, x.1 ≠ 0 ∧ x.2.1 ≠ 0) :
+    NoZeroIds (mkEmu threads cpus enabled lint) :=
+  noZeroIds_mkEmu_nil threads cpus enabled lint hid
+
+/-- … and with run-time channel groups (the mark types), when their ids are distinct from the
+    models' and their connect-time values / CPU-mux defaults are accepted by `emit`. -/
+theorem noZeroIds_init_extra (threads : List (Int × Int × Nat)) (cpus : List (Nat × Int × Bool))
+    (enabled : List Nat) (lint : Bool) (extra : List ModelSpec)
+    (hid : ∀ x ∈ threads, x.1 ≠ 0 ∧ x.2.1 ≠ 0)
+    (hx : ∀ m ∈ extra, m.initOk = true ∧ m.defaultOk = true)
+    (hnd : ((allSpecs.filter (fun s => enabled.contains s.char) ++ extra).map (·.char)).Nodup) :
+    NoZeroIds (mkEmu threads cpus enabled lint extra) :=
+  noZeroIds_mkEmu threads cpus enabled lint extra hid hx hnd
+
+/-- **Record emission is total.**  In a well-formed state satisfying `NoZeroIds`, for every OH*
+    event the handlers accept, `records` succeeds: on the thread rows the CPU value is
+    `gindex + 1 ≥ 1` (PRV_NEXT) or nothing, the TID value is the non-zero TID or nothing, the state
+    value is the code of running / paused / dead / cooling / warming (1 … 5; the code 0 = unknown is
+    never written: before the first execute the channel is empty, and no transition leads back);
+    on the CPU rows nrun has PRV_ZERO and pid / tid are those of the unique running thread or
+    nothing; the model views are unchanged or show an untouched model-channel value / CPU-mux
+    default.  `NoZeroIds` holds again after the step. -/
+theorem records_total {e e1 : Emu} (h : WF e) (hz : NoZeroIds e) (hen : e.enabled.contains 79 = true)
+    {ti v : Nat} (hv : v ∈ [120, 99, 112, 119, 114, 101]) {payload : List Nat}
+    (hm : modelEvent e ti 79 72 v payload th mh = .ok e1) :
+    (∃ rs, records e e1 = .ok rs) ∧ NoZeroIds e1.flushAll :=
+  records_total_step th mh h hz hen (ev := (ti, 72, v, payload)) (Or.inl ⟨rfl, hv⟩) hm
+
+/-- Conversely the record emission is the **only** place where the full step can differ from its
+    emulator component, and it fails in one way only: whenever the handlers and the flush accept an
+    event (`emuStep`) and the full `stepEv` does not, the error is `emit`'s "forbidden value 0". -/
+theorem stepEv_rejects_only_zero {e e' : Emu} {ev : HEv} (hs : emuStep th mh e ev.toOEv = .ok e') {err : Err}
+    (hf : stepEv e ev.1 79 72 ev.2.1 ev.2.2 th mh = .error err) : err = .prvZero :=
+  stepEv_error_of_emuStep_ok th mh (ev := ev.toOEv) hs hf
+
+/-- `NoZeroIds` is kept by every accepted `stepEv` of an OH* event. -/
+theorem noZeroIds_step {e e' : Emu} (h : WF e) (hz : NoZeroIds e) (hen : e.enabled.contains 79 = true)
+    {ev : HEv} (hv : ev.2.1 ∈ [120, 99, 112, 119, 114, 101]) {rs : List PrvRec}
+    (hs : stepEv e ev.1 79 72 ev.2.1 ev.2.2 th mh = .ok (e', rs)) : NoZeroIds e' := by
+  obtain ⟨e1, hm, _, rfl⟩ := (stepEv_ok_iff th mh e ev.toOEv e' rs).mp hs
+  exact (records_total th mh h hz hen hv hm).2
+
+/-- Generalised form of `stepEv_history_accept_iff` for any state reachable from `e0`. -/
+theorem stepAccepts_iff_accepts (e0 : Emu) (hen : e0.enabled.contains 79 = true) :
+    ∀ (hist : List HEv) (e : Emu), WF e → NoZeroIds e → SameStatic e0 e →
+      Admissible e0 (absOf e.threads) hist →
+      (StepAccepts th mh e hist ↔ Accepts th mh e hist)
+  | [], _, _, _, _, _ => Iff.rfl
+  | ev :: rest, e, hw, hz, hst, hadm => by
+    obtain ⟨ti, v, payload⟩ := ev
+    obtain ⟨hv, hadx, hadr⟩ := hadm
+    simp only at hv hadx hadr
+    have hen' : e.enabled.contains 79 = true := by rw [hst.enabled]; exact hen
+    constructor
+    · exact stepAccepts_accepts th mh _ _
+    · rintro ⟨e', he', hrest⟩
+      simp only [HEv.toOEv] at he'
+      cases ht : e.threads[ti]? with
       | none =>
-        have : steps = [] := by simpa using hsl
-        subst this; simpa using hfin
-      | some s' =>
-        have : (s :: steps).getLast? = some s' := by
-          rw [List.getLast?_cons]; simp [hsl]
-        simpa [this] using hfin
+        unfold emuStep at he'
+        simp only [modelEvent_nothread th mh hen' ht] at he'
+        cases he'
+      | some t =>
+        have hx := admissible_hx hst ht hadx
+        obtain ⟨e1, hacc, rfl⟩ := (emuStep_OH th mh hw hen' ht v payload e').mp he'
+        obtain ⟨hw1, hst1, hsp⟩ := thread_step_sound hw ht hv hx hacc
+        have hm : modelEvent e ti 79 72 v payload th mh = .ok e1 := by
+          rw [modelEvent_OH th mh hw hen' ht]; exact hacc
+        obtain ⟨⟨rs, hrs⟩, hz1⟩ := records_total th mh hw hz hen' hv hm
+        refine ⟨e1.flushAll, rs, (stepEv_ok_iff th mh e (ti, 72, v, payload) _ rs).mpr ⟨e1, hm, hrs, rfl⟩, ?_⟩
+        exact (stepAccepts_iff_accepts e0 hen rest _ hw1 hz1 (hst.trans hst1) (hadr _ hsp)).mpr hrest
+
+/-- **Acceptance of histories by the full emulation step.**  From any well-formed state satisfying
+    `NoZeroIds` (in particular `mkEmu …` with non-zero TIDs and PIDs: `wf_init`, `noZeroIds_init`)
+    with the ovni model enabled, for every OH* history on any number of threads that never executes a
+    dead thread: folding the full `stepEv` — handlers, Paraver record emission, flush — and then
+    `finish` succeeds **iff** every step is `Legal`, no physical CPU is ever oversubscribed, and all
+    threads end dead. -/
+theorem stepEv_history_accept_iff {e0 : Emu} (h0 : WF e0) (hz : NoZeroIds e0)
+    (hen : e0.enabled.contains 79 = true) (hl : (e0.lint && lintOpen e0) = false) (hist : List HEv)
+    (hadm : Admissible e0 (absOf e0.threads) hist) :
+    StepAccepts th mh e0 hist ↔ SpecAccepts e0.phys (targetOf e0) (absOf e0.threads) hist :=
+  (stepAccepts_iff_accepts th mh e0 hen hist e0 h0 hz (SameStatic.refl e0) hadm).trans
+    (history_accept_iff th mh h0 hen hl hist hadm)
+
+/-- The same for the emulator built from a hierarchy whose TIDs and PIDs are non-zero. -/
+theorem stepEv_history_accept_iff_init (threads : List (Int × Int × Nat)) (cpus : List (Nat × Int × Bool))
+    (enabled : List Nat) (lint : Bool) (hid : ∀ x ∈ threads, x.1 ≠ 0 ∧ x.2.1 ≠ 0)
+    (hen : enabled.contains 79 = true)
+    (hl : (lint && lintOpen (mkEmu threads cpus enabled lint)) = false) (hist : List HEv)
+    (hadm : Admissible (mkEmu threads cpus enabled lint) (absOf (mkEmu threads cpus enabled lint).threads) hist) :
+    StepAccepts th mh (mkEmu threads cpus enabled lint) hist ↔
+      SpecAccepts (mkEmu threads cpus enabled lint).phys (targetOf (mkEmu threads cpus enabled lint))
+        (absOf (mkEmu threads cpus enabled lint).threads) hist :=
+  stepEv_history_accept_iff th mh (wf_init threads cpus enabled lint) (noZeroIds_init threads cpus enabled lint hid)
+    hen hl hist hadm
 
 /-! ## The thread-state timeline -/
 
@@ -569,6 +691,31 @@ example : Admissible demo (absOf demo.threads) demoHist := admissible_of_B _ _ _
 example : ((emuRun noHook noHook demo (demoHist.map HEv.toOEv)).toOption.map
     fun e => (absOf e.threads, (finish e).toOption)) =
     some ([(.dead, none), (.dead, none)], some ()) := by decide
+
+/-- the side condition holds for the demo system (TIDs 10, 11, PID 100) … -/
+example : NoZeroIds demo := by decide
+example : NoZeroIds demo := noZeroIds_init _ _ _ _ (by decide)
+
+/-- … and the full step accepts the demo history: `finish` succeeds and the seven steps emit
+    6, 6, 5, 4, 3, 5 and 6 records; the last step (end of thread 0) writes CPU 0 (nothing), TID 0
+    (nothing), state 3 = dead on thread row 1 and PID / TID nothing, nrun 0 on CPU row 1 -/
+example : ((stepRun noHook noHook demo demoHist).toOption.map fun r =>
+      ((finish r.1).toOption, r.2.map List.length, r.2.getLast?)) =
+    some (some (), [6, 6, 5, 4, 3, 5, 6],
+      some [⟨0, 1, 6, 0⟩, ⟨0, 1, 2, 0⟩, ⟨0, 1, 4, 3⟩, ⟨1, 1, 1, 0⟩, ⟨1, 1, 2, 0⟩, ⟨1, 1, 3, 0⟩]) := by
+  decide
+
+/-- a system whose only thread has TID 0 (not `NoZeroIds`; the loader refuses it) -/
+def demoTid0 : Emu := mkEmu [(0, 100, 0)] [(0, 0, false)] [79] true
+
+/-- **The side condition is needed**: with TID 0 the handlers accept the execute (`emuStep`
+    succeeds) but the record emission refuses the value 0 on the TID type ("forbidden value 0"), so
+    the full step fails. -/
+theorem tid_zero_records_fail :
+    ¬ NoZeroIds demoTid0 ∧
+    (emuStep noHook noHook demoTid0 (0, 72, 120, xPayload 0)).toOption.isSome = true ∧
+    (match stepEv demoTid0 0 79 72 120 (xPayload 0) noHook noHook with
+      | .error .prvZero => true | _ => false) = true := by decide
 
 /-- … and two running threads on physical CPU 0 are refused (`Err.oversub`) -/
 example : (match emuRun noHook noHook demo [(0, 72, 120, xPayload 0), (1, 72, 120, xPayload 0)] with
